@@ -35,6 +35,7 @@ ENTRY(cross_3_f32) { auto a = in_vec<3, TY>(c, 0); auto b = in_vec<3, TY>(c, 1);
 ENTRY(cross2d_f32) { auto a = in_vec<2, TY>(c, 0); auto b = in_vec<2, TY>(c, 1); c.out(glm::cross(a, b)); }
 ENTRY(mixedProduct_f32) { auto a = in_vec<3, TY>(c, 0); auto b = in_vec<3, TY>(c, 1); auto d = in_vec<3, TY>(c, 2); c.out(glm::mixedProduct(a, b, d)); }
 ENTRY(triangleNormal_f32) { auto a = in_vec<3, TY>(c, 0); auto b = in_vec<3, TY>(c, 1); auto d = in_vec<3, TY>(c, 2); out_vec(c, glm::triangleNormal(a, b, d)); }
+ENTRY(orthonormalize_m3_f32) { auto m = in_mat<3, 3, TY>(c, 0); out_mat(c, glm::orthonormalize(m)); }
 ENTRY(orthonormalize_f32) { auto a = in_vec<3, TY>(c, 0); auto b = in_vec<3, TY>(c, 1); out_vec(c, glm::orthonormalize(a, b)); }
 ENTRY(closestPointOnLine_3_f32) { auto p = in_vec<3, TY>(c, 0); auto a = in_vec<3, TY>(c, 1); auto b = in_vec<3, TY>(c, 2); out_vec(c, glm::closestPointOnLine(p, a, b)); }
 ENTRY(closestPointOnLine_2_f32) { auto p = in_vec<2, TY>(c, 0); auto a = in_vec<2, TY>(c, 1); auto b = in_vec<2, TY>(c, 2); out_vec(c, glm::closestPointOnLine(p, a, b)); }
